@@ -129,6 +129,12 @@ class Executor(Exec):
         if f.kind == "boundfn":
             fn, selfv, owner = f.recv
             return self.call_function(fn, [selfv] + args, kw, st, k, owner=owner)
+        if f.kind == "local":
+            # a nested function: only through its own (modular) contract; it sees the caller's variables
+            c = self.spec.contracts.get(f.name) if self.spec is not None else None
+            if c is None or not c.modular:
+                raise Unsupported(f"nested function {f.name} without a modular contract")
+            return self.spec.call_by_contract(self, c, f.recv, args, kw, st, k)
         if f.kind == "emptydict":
             raise Unsupported("call of a dict")
         raise Unsupported(f"call {f}")
@@ -456,6 +462,13 @@ class Executor(Exec):
             v = args[0]
             if isinstance(v, SOpaqueObj) and c.elem == "PyVal":
                 v = SPrim("PyVal", S.fresh("pv", S.PyVal))
+            if isinstance(v, SRef) and isinstance(st.cell(v.ref), SetCell) and c.elem == ("set", st.cell(v.ref).elem):
+                # a set stored into a list of set *values*: a snapshot; the object itself is retired (any later use of it
+                # is outside the subset), so that aliasing between the list element and the name cannot be observed
+                mem = st.cell(v.ref).mem
+                st = st.put(recv.ref, ListCell(c.elem, c.n + 1, z3.Store(c.arr, c.n, mem)))
+                h = dict(st.heap); h[v.ref] = Retired()
+                return k(SNone(), st.but(heap=h))
             if v.ty != c.elem: raise Unsupported("list.append of another element type")
             return k(SNone(), st.put(recv.ref, ListCell(c.elem, c.n + 1, z3.Store(c.arr, c.n, term_of(v)))))
         if name == "copy":
@@ -514,7 +527,8 @@ class Executor(Exec):
 
     def site_check(self, txt, expr, st):
         from vf.pyvc.spec import PureEval
-        goal = PureEval(self, st, dict(st.env), old_st=getattr(self, "entry_st", None)).truth(expr)
+        extra = self.ghost_extra() if hasattr(self, "ghost_extra") else {}
+        goal = PureEval(self, st, dict(st.env, **extra), old_st=getattr(self, "entry_st", None)).truth(expr)
         self.vc(f"{self.top_name}.after[{txt}]", st, goal, "assertion at a program point")
         return st.assume(goal)            # a cut: proved here, available afterwards
 
@@ -630,6 +644,8 @@ class Executor(Exec):
                 o, i = vals
                 if isinstance(o, SSubSet):         # g[x][y] = None  on a dict of dicts-used-as-sets: add y to g[x]
                     return self.subset_method(o, "add", [i], st2, lambda _, st3: k(st3))
+                if isinstance(o, SRef) and isinstance(st2.cell(o.ref), SetCell) and isinstance(v, SNone):
+                    return self.set_method(o, st2.cell(o.ref), "add", [i], st2, lambda _, st3: k(st3))   # d[x] = None on a dict used as a set
                 if isinstance(o, SRef):
                     c = st2.cell(o.ref)
                     if isinstance(c, DictCell):
@@ -729,9 +745,14 @@ class Executor(Exec):
     def ex_Continue(self, s, st, k): return st.fr.loops[-1][1](st)
 
     def ex_FunctionDef(self, s, st, k):
-        return k(st.bind(s.name, SClosure("local", s.name, recv=s)))
+        outer = getattr(st.fr, "qual", None) or "?"
+        return k(st.bind(s.name, SClosure("local", f"{outer}.{s.name}", recv=s)))
 
     # loops are in loops.py (mixed in by Verifier)
+
+
+class Retired:
+    """heap cell of an object that was moved into a container by value"""
 
 
 class SIter(SV):
